@@ -67,6 +67,7 @@ fn main() {
         "c03_reset_hard" => c03::reset_hard(&v),
         "c04_split" => c04::split(&v),
         "c04_post_commit_scope" => c04::post_commit_scope(&v),
+        "c04_amend_scope" => c04::amend_scope(&v),
         "c05_ranges" => c05::ranges(&v),
         "c05_upsert" => c05::upsert(&v),
         "c05_state" => c05::state(&v),
